@@ -3,11 +3,18 @@
    Proved here about the memory operations of the VM model (VM.v, the same
    functions every session correspondence runs through): a written local is
    read back, writing one slot changes no other, growth keeps every cell,
-   Push/Pop and PushFrame/PopFrame restore the frame structure.  The history
-   statement (G = A of Mem18.v on every legal history without stale or dead
-   reads) is the refinement theorem in MemRefine.v when present; the check
-   runs G, A and the real memory.Type side by side on generated histories. *)
-Require Import Calc.Base Calc.Bytecode Calc.Value Calc.FloatText Calc.Compile Calc.VM Calc.MemProofs.
+   Push/Pop and PushFrame/PopFrame restore the frame structure.  And the
+   history statement (MemRefine.v): on every legal history of pushes, pops,
+   frame pushes and pops of any width and depth, variable writes and reads,
+   return-address reads and writes, globals, and clones into fresh or recycled
+   memories, the Go algorithm G (these very memory functions, with its growing
+   slice and frame-pointer pairs) shows exactly the values of the
+   specification A in which every activation owns its variables — growth and
+   foreign frames never change a variable.  The operations through which a
+   closure aliases a frame are left to the run: there the real code deviates
+   (finding K1) in a way the list model of G cannot exhibit.  The check runs G,
+   A and the real memory.Type side by side on generated histories. *)
+Require Import Calc.Base Calc.Bytecode Calc.Value Calc.FloatText Calc.Compile Calc.VM Calc.MemProofs Calc.Mem18 Calc.MemRefine.
 Open Scope Z_scope.
 
 Lemma znth_zset_same {A} (l : list A) i v :
@@ -115,3 +122,37 @@ Proof.
   rewrite <- Epre. rewrite nth_error_firstn_lt by lia. reflexivity.
 Qed.
 Print Assumptions C18_new_frame_leaves_lower_cells.
+
+(* ---- histories ---- *)
+Theorem C18_go_memory_refines_activations : forall ops,
+  forallb core_op ops = true -> Forall (fun ob => ob <> OIllegal) (a_run aw_init ops) ->
+  map (fun x => fst (fst x)) (g_run gw_init ops) = a_run aw_init ops.
+Proof. exact go_memory_refines_activations. Qed.
+Print Assumptions C18_go_memory_refines_activations.
+
+(* one step from any related pair of worlds keeps them related: the invariant behind it *)
+Theorem C18_step_keeps_simulation : forall gw aw o,
+  Rw gw aw -> core_op o = true -> snd (a_step aw o) <> OIllegal ->
+  snd (g_step gw o) = snd (a_step aw o) /\ Rw (fst (g_step gw o)) (fst (a_step aw o)).
+Proof. exact core_step. Qed.
+Print Assumptions C18_step_keeps_simulation.
+
+(* the hypotheses are met by a real history: nested calls of widths 3 and 130
+   (past the first growth step), a write in the outer frame read back after the
+   inner call returned, a fork of the frame into a fresh and into a recycled
+   memory, all legal *)
+Definition C18_history : list mop :=
+  [MPush 0 (VInt 1); MPush 0 (VInt 2); MPushFrame 0 2 3; MPush 0 (VInt 99); MSet 0 2 (VInt 7);
+   MPush 0 (VInt 5); MPushFrame 0 1 130; MPush 0 (VInt 98); MSet 0 129 (VInt 8); MLocal 0 129; MLocal 0 0;
+   MClone 0 None; MSet 1 129 (VInt 9); MLocal 1 129; MLocal 0 129; MIPGet 0; MPopFrame 0;
+   MLocal 0 2; MLocal 0 0; MLocal 0 1; MIPGet 0; MClone 0 (Some 1); MLocal 1 2; MSetGlobal "g" (VInt 3); MGlobal "g";
+   MPopFrame 0; MPush 0 (VInt 4); MPop 0].
+
+Example C18_nonvacuous :
+  forallb core_op C18_history = true /\
+  forallb (fun ob => match ob with OIllegal => false | _ => true end) (a_run aw_init C18_history) = true /\
+  a_run aw_init C18_history =
+  [ONone; ONone; ONone; ONone; ONone; ONone; ONone; ONone; ONone; OVal (VInt 8); OVal (VInt 5); ONone; ONone;
+   OVal (VInt 9); OVal (VInt 8); OVal (VInt 98); ONone; OVal (VInt 7); OVal (VInt 1); OVal (VInt 2); OVal (VInt 99);
+   ONone; OVal (VInt 7); ONone; OVal (VInt 3); ONone; ONone; OVal (VInt 4)].
+Proof. repeat split; vm_compute; reflexivity. Qed.
